@@ -186,8 +186,63 @@ def frame_check(call):
     return dict(fails=got != [[(1, 10), (2, 20)], [(3, 30), (4, 40)]], detail='depth-2 positional companions: %r' % (got,))
 
 
+def predicates_check(call):
+    """is_iterable / len0 on one value of every class of the value datatype (None, list, tuple, the four range-like kinds, dict, strings, other scalars):
+    is_iterable is True exactly for list / tuple / range-like / dict; len0 is len(x) for the sized containers and 0 for None, strings, scalars and zip objects"""
+    import datetime
+    from pyg_base._types import is_iterable
+    from pyg_base._loop import len0
+    d = {'a': 1, 'b': 2}
+    mk = [lambda: None, lambda: [], lambda: [1, 2], lambda: (), lambda: (1, 2, 3), lambda: range(0), lambda: range(4), lambda: d.keys(), lambda: d.values(),
+          lambda: zip([1, 2], [3, 4]), lambda: zip(), lambda: {}, lambda: dict(d), lambda: '', lambda: 'abc', lambda: 0, lambda: 5, lambda: 2.5, lambda: float('nan'),
+          lambda: True, lambda: datetime.datetime(2020, 1, 1), lambda: len]
+    bad = []
+    for f in mk:
+        v = f()
+        container = isinstance(v, (list, tuple, range, type(d.keys()), type(d.values()), zip, dict))
+        want_len = len(v) if container and not isinstance(v, zip) else 0
+        try:
+            got_it, got_len = is_iterable(f()), len0(f())
+        except Exception as e:      # noqa
+            bad.append('%r: raised %r' % (v, e))
+            continue
+        if got_it is not container:
+            bad.append('is_iterable(%r) = %r' % (v, got_it))
+        if got_len != want_len or isinstance(got_len, bool):
+            bad.append('len0(%r) = %r, expected %r' % (v, got_len, want_len))
+    which = call.get('kind')
+    bad = [b for b in bad if which is None or which in b or 'raised' in b] or []
+    return dict(fails=bool(bad), detail='; '.join(bad[:4]) or 'is_iterable / len0 agree with their contract on %d values' % len(mk))
+
+
+def wrapped_prelude_check(call):
+    """loops.wrapped with positional arguments: the first one is looped over, the other positionals and the keywords are its companions"""
+    from pyg_base import loop
+
+    @loop(list, tuple)
+    def f(a, b=0, c=0):
+        return (a, b, c)
+    cases = [((3,), {}, (3, 0, 0)), (([1, 2],), {}, [(1, 0, 0), (2, 0, 0)]), (([1, 2], 10), {}, [(1, 10, 0), (2, 10, 0)]),
+             (([1, 2], [10, 20]), dict(c=[5, 6]), [(1, 10, 5), (2, 20, 6)]), (((1, [2]), 7, 8), {}, ((1, 7, 8), [(2, 7, 8)])),
+             ((4, [1, 2]), {}, (4, [1, 2], 0)), (([], 1), dict(c=2), [])]
+    bad = []
+    for args, kw, want in cases:
+        try:
+            got = f(*copy.deepcopy(args), **copy.deepcopy(kw))
+        except Exception as e:      # noqa
+            bad.append('f(*%r, **%r) raised %r' % (args, kw, e))
+            continue
+        if not same(got, want):
+            bad.append('f(*%r, **%r) = %r, expected %r' % (args, kw, got, want))
+    return dict(fails=bool(bad), detail='; '.join(bad[:3]) or 'a lifted function called with positional arguments loops over the first one (%d cases)' % len(cases))
+
+
 def replay(call):
     kind = call.get('kind')
+    if kind in ('is_iterable', 'len0'):
+        return predicates_check(call)
+    if kind == 'wrapped_prelude':
+        return wrapped_prelude_check(call)
     fn = {'as_list': as_list_check, 'as_tuple_known': as_tuple_known, 'lens': lens_check, 'zipper': zipper_check, 'wrapped': wrapped_check,
           'item_by_i': item_by_check, 'item_by_key': item_by_check, 'frame': frame_check}.get(kind)
     if fn is None:
